@@ -342,7 +342,7 @@ def c19(pid, tier, seed):
 def c06(pid, tier, seed):
     q = tier == "quick"
     ops = ("tick", "inc", "set_message", "set_prefix", "set_length", "println", "finish", "finish_with_message", "finish_and_clear", "abandon",
-           "reset", "force_draw", "set_tab_width", "set_style", "drop", "iter", "is_hidden")
+           "reset", "force_draw", "set_tab_width", "set_style", "drop", "iter", "is_hidden", "seek_to")
     fams = [
         fam("hidden_target", W=10, H=5, D=4 if q else 5, BarOps=ops, MsgShapes=("a", "tab"), TextShapes=("T",), Tpls=("MnC",), Fins=("AndLeave", "AndClear"), Tgt="hidden"),
         # a bar born hidden, shown later with set_draw_target and hidden again: silent exactly while hidden
